@@ -328,7 +328,8 @@ MergeNodes(D, H, to, from, pol0) ==
 
 (* ---- fragments: the Go values handed to Merge; may embed a held *Config ------
    [f |-> "p", ty, v] | [f |-> "nil"] | [f |-> "m", m |-> [Key -> frag]]
-   | [f |-> "l", l |-> Seq(frag)] | [f |-> "cfg", h |-> handle index]            *)
+   | [f |-> "l", l |-> Seq(frag)] | [f |-> "cfg", h |-> handle index]
+   | [f |-> "cs", h, key, sub, v]  an ordered struct: embedded config + dotted sibling below it   *)
 RECURSIVE NormFrag(_,_,_,_,_,_), NormMap(_,_,_,_,_,_), NormList(_,_,_,_,_,_)
 NormFrag(D, H, handles, fr, par, fld) ==
   CASE fr.f = "p"   -> [H |-> H, v |-> LPrim(fr.ty, fr.v, fld)]
@@ -340,6 +341,17 @@ NormFrag(D, H, handles, fr, par, fld) ==
                THEN [H |-> [H EXCEPT ![id].par = par, ![id].fld = fld], v |-> Sub(id)]
                ELSE [H |-> H, v |-> Sub(id)])
          ELSE CopyVal(D, H, Sub(id), par, fld)          \* (ideal) an independent copy is embedded
+    [] fr.f = "cs" ->
+         \* struct{ F0 *Config `config:"<key>"`; F1 string `config:"<key>.<sub>"` }: the embedded config is
+         \* visited first, then a dotted sibling that lands INSIDE it - inside the embedded COPY, never in
+         \* the caller's config
+         LET id == NextId(H)
+             H1 == WithNode(H, id, NodeAt(par, fld))
+             c  == CopyVal(D, H1, Sub(handles[fr.h]), id, fr.key)
+             H2 == [c.H EXCEPT ![id].d = (fr.key :> c.v), ![id].dm = TRUE]
+             H3 == [H2 EXCEPT ![c.v.id].d = [x \in DOMAIN @ \cup {fr.sub} |-> IF x = fr.sub THEN LPrim("s", fr.v, fr.sub) ELSE @[x]],
+                              ![c.v.id].dm = TRUE]
+         IN [H |-> H3, v |-> Sub(id)]
     [] fr.f = "m" ->
          LET id == NextId(H) IN
          [H |-> NormMap(D, WithNode(H, id, NodeAt(par, fld)), handles, fr.m, id, DOMAIN fr.m), v |-> Sub(id)]
@@ -437,7 +449,10 @@ Apply(D, st, op) ==
          IF H[hs[op.h]].par = NoId THEN [st |-> [H |-> H, hs |-> Append(hs, hs[op.h])], res |-> "nil"]
          ELSE [st |-> [H |-> H, hs |-> Append(hs, H[hs[op.h]].par)], res |-> "ok"]
     [] op.op = "merge" ->
-         [st |-> [H |-> MergeFrag(D, H, hs, op.h, op.fr, op.pol), hs |-> hs], res |-> "ok"]
+         \* the dotted sibling of a "cs" fragment meets a setting the embedded config already has: duplicate key
+         IF op.fr.f = "cs" /\ op.fr.sub \in DOMAIN H[hs[op.fr.h]].d /\ H[hs[op.fr.h]].d[op.fr.sub].k # "nil"
+         THEN [st |-> st, res |-> "err:duplicate"]
+         ELSE [st |-> [H |-> MergeFrag(D, H, hs, op.h, op.fr, op.pol), hs |-> hs], res |-> "ok"]
 
 (* projection of a state.  Components are selected by the property under check. *)
 AllComps == {"obs", "path", "kind", "flat", "at", "sweep", "count", "cmp"}
